@@ -842,70 +842,61 @@ fn main() {
             solver.push();
             let mut rw = rewriter_from(P, &sys.hyps, false);
             let mut unbound: Vec<String> = Vec::new();
+            // lemma finder over UF atoms (re-association of the length-tag arithmetic inside the
+            // permutation arguments), each lemma and the final identity validated by z3
+            let mut nz_cache: Option<Normalizer> = None;
             for (name, cv, nv) in &sys.goals {
                 let goal = Fm::Eq(*cv, *nv);
-                match discharge(&mut solver, &mut rw, &sys.hyps, &goal, &mut sh, "c06.bound") {
-                    Verdict::Holds => {}
-                    Verdict::Cex(_) => unbound.push(name.clone()),
-                    Verdict::Undecided(w) => {
-                        // the arguments of the permutation differ only by re-association of the
-                        // length-tag arithmetic: normal forms over UF atoms find the lemma chain,
-                        // z3 validates the merges and the final identity over the arena terms
+                let syntactic = matches!(rw.canon_fm(&goal), Fm::True);
+                if !syntactic {
+                    if nz_cache.is_none() {
                         let mut nz = Normalizer::new(P);
-                        nz.deadline = Some(std::time::Instant::now() + std::time::Duration::from_secs(20));
+                        nz.deadline = Some(std::time::Instant::now() + std::time::Duration::from_secs(60));
                         // two rounds: substitutions recorded on canonical UF nodes go stale when a
                         // later hypothesis rewrites their arguments; the second round re-attaches them
                         for _round in 0..2 {
                             for h in &sys.hyps {
                                 if let Fm::Eq(l, r) = h {
-                                    let u = nz.add_hyp(*l, *r);
-                                    if std::env::var("VERIF_TRACE").is_ok() && u == HypUse::Ideal {
-                                        let d = nz.norm(*l).zip(nz.norm(*r)).map(|(a, b)| a.sub(&b));
-                                        eprintln!("   [ideal hyp round {_round}] {:?}", d.map(|d| d.t.iter().take(5).map(|(m, c)| format!("{c}*{:?}", m.iter().map(|(v, e)| format!("{}^{e}", with_arena(|ar| match &ar.nodes[*v as usize] { Node::Var(x) => ar.var_names[*x as usize].clone(), _ => format!("n{v}") }))).collect::<Vec<_>>())).collect::<Vec<_>>()));
-                                    }
+                                    let _ = nz.add_hyp(*l, *r);
                                 }
                             }
                         }
-                        let mut ok = nz.equal(*cv, *nv) == Some(true);
-                        if std::env::var("VERIF_TRACE").is_ok() {
-                            let (a, b) = (nz.norm(*cv), nz.norm(*nv));
-                            eprintln!("[c06] fallback {name}: equal={ok} lhs terms {:?} rhs terms {:?} merges {} ideal {}", a.as_ref().map(|f| f.t.len()), b.as_ref().map(|f| f.t.len()), nz.merges.len(), nz.ideal.len());
-                            for h in &sys.hyps { if let Fm::Eq(l, r) = h { if *l == *cv || *r == *cv || nz.handle(*l) == nz.handle(*cv) {
-                                let show = |nz: &mut Normalizer, x: H| -> String { match nz.norm(x) { Some(f) => f.t.iter().take(3).map(|(m, c)| format!("{c}*{:?}", m.iter().map(|(v, e)| format!("{}^{e}", with_arena(|ar| match &ar.nodes[*v as usize] { Node::Var(x) => ar.var_names[*x as usize].clone(), Node::Uf { idx, args, .. } => format!("uf{v}[{idx}]({:?})", args.iter().take(16).collect::<Vec<_>>()), _ => format!("n{v}") }))).collect::<Vec<_>>())).collect::<Vec<_>>().join(" + "), None => "none".into() } };
-                                eprintln!("   hyp about the goal cell: {} == {}", show(&mut nz, *l), show(&mut nz, *r));
-                            } } }
-                            if let (Some(a), Some(b)) = (a, b) { let d = a.sub(&b); for (m, c) in d.t.iter().take(8) { eprintln!("      {c} * {:?}", m.iter().map(|(v, e)| format!("{}^{e}", with_arena(|ar| match &ar.nodes[*v as usize] { Node::Var(x) => ar.var_names[*x as usize].clone(), Node::Uf { idx, args, .. } => format!("uf{v}[{idx}]({:?})", args.iter().take(16).collect::<Vec<_>>()), Node::Inv(_) => format!("inv{v}"), _ => format!("cut{v}") }))).collect::<Vec<_>>()); } }
-                        }
-                        if ok {
-                            solver.set_timeout(5_000);
-                            let mut check = |solver: &mut Solver, a: H, b: H| -> bool {
-                                for free_inv in [true, false] {
-                                    let Some(script) = nz.lemma_script(a, b, free_inv) else { continue };
-                                    solver.push();
-                                    solver.raw(&script);
-                                    let r = solver.check_som();
-                                    solver.pop();
-                                    if matches!(r, SatResult::Unsat) {
-                                        return true;
-                                    }
-                                }
-                                false
-                            };
-                            for (i, rep) in nz.merges.clone() {
-                                ok &= check(&mut solver, H::N(i), rep);
-                            }
-                            ok &= check(&mut solver, *cv, *nv);
-                            solver.set_timeout(if thorough { 60_000 } else { 20_000 });
-                        }
-                        if ok {
-                            // discharge() counted this obligation as undecided: move it
-                            *sh.counters.entry("c06.bound.undecided".into()).or_insert(1.0) -= 1.0;
-                            sh.bump("c06.bound.unsat");
-                            sh.bump("c06.bound.unsat_lemma_chain_validated_by_z3");
-                        } else {
-                            sh.undecided.push(json!({"program": label, "ob": name, "why": w}));
-                        }
+                        nz_cache = Some(nz);
                     }
+                    let nz = nz_cache.as_mut().unwrap();
+                    let mut ok = nz.equal(*cv, *nv) == Some(true);
+                    if ok {
+                        solver.set_timeout(5_000);
+                        let mut check = |solver: &mut Solver, nz: &Normalizer, a: H, b: H| -> bool {
+                            for free_inv in [true, false] {
+                                let Some(script) = nz.lemma_script(a, b, free_inv) else { continue };
+                                solver.push();
+                                solver.raw(&script);
+                                let r = solver.check_som();
+                                solver.pop();
+                                if matches!(r, SatResult::Unsat) {
+                                    return true;
+                                }
+                            }
+                            false
+                        };
+                        for (i, rep) in nz.merges.clone() {
+                            ok &= check(&mut solver, nz, H::N(i), rep);
+                        }
+                        ok &= check(&mut solver, nz, *cv, *nv);
+                        solver.set_timeout(if thorough { 60_000 } else { 20_000 });
+                    }
+                    if ok {
+                        sh.bump("c06.bound.obligations");
+                        sh.bump("c06.bound.unsat");
+                        sh.bump("c06.bound.unsat_lemma_chain_validated_by_z3");
+                        continue;
+                    }
+                }
+                match discharge(&mut solver, &mut rw, &sys.hyps, &goal, &mut sh, "c06.bound") {
+                    Verdict::Holds => {}
+                    Verdict::Cex(_) => unbound.push(name.clone()),
+                    Verdict::Undecided(w) => sh.undecided.push(json!({"program": label, "ob": name, "why": w})),
                 }
             }
             solver.pop();
